@@ -510,7 +510,7 @@ Variable sp : spec.
 
 (* Task.complete up to the dispatch of the follow-up commands *)
 Inductive pre_res :=
-| PreIgnored (t : tx)                       (* task already completed *)
+| PreIgnored (t : tx)                       (* nothing dispatched: task already completed, or workflow paused *)
 | PreRaised (t : tx)                        (* a guard raised after the state was set *)
 | PreCmds (t : tx) (cmds : list cmd).
 
@@ -532,7 +532,8 @@ Definition complete_pre (t : tx) (tid : nat) (x : state) : pre_res :=
       let eh := if state_eqb x ERROR then existsb (fun p => evkind_eqb (snd p) OnError) nx else t_err_handled r1 in
       let r2 := mkTrow (t_name r1) x (t_processed r1) nt has eh (t_unique r1) (t_uid r1) (t_trig r1) in
       let s2 := upd_task s1 tid r2 in
-      if is_paused (wf_state s2) then PreCmds (s2, snd t) []   (* not processed, nothing dispatched *)
+      if is_paused (wf_state s2) then PreIgnored (s2, snd t)   (* Task.complete returns: not processed, the
+                                                                  dispatcher (and the backlog) is not touched *)
       else
         let s3 := upd_task s2 tid (t_set_processed r2 true) in
         let ops := if negb has then snd t ++ [OCheck] else snd t in
@@ -552,9 +553,15 @@ Definition run_task_cmd (sp : spec) (t : tx) (name : nat) (waiting : bool) (trig
 
 Definition run_existing_cmd (t : tx) (tid : nat) (reset rerun : bool) : tx :=
   let s := fst t in
-  let waiting := state_eqb (t_state (get_task s tid)) WAITING in
-  (* create_task: a WAITING task being rerun gets its refresh job scheduled directly *)
-  let s1 := if waiting && rerun then add_pend s (IRefresh tid) else s in
+  let r := get_task s tid in
+  let waiting := state_eqb (t_state r) WAITING in
+  (* create_task: a WAITING task being rerun gets its refresh job scheduled directly; a failed task being
+     rerun is RUNNING (not processed) from the rerun transaction on (fix 8879519e: otherwise a completion
+     check made before its start request is processed fails the workflow again) *)
+  let s1 := if waiting && rerun then add_pend s (IRefresh tid)
+            else if rerun && state_eqb (t_state r) ERROR
+                 then upd_task s tid (t_set_processed (t_set_state r RUNNING) false)
+                 else s in
   (s1, snd t ++ [OStartTask tid false rerun reset]).
 
 Fixpoint process_cmds (fuel : nat) (t : tx) (cmds : list cmd) : result :=
